@@ -389,7 +389,7 @@ func derive(ts []typeSpec) []typeSpec {
 	return out
 }
 
-var structTags = []string{``, `json:"x"`, `json:"x,omitempty"`, `json:",string"`, `json:"-"`, `json:"-,"`, `json:",omitempty"`, `json:"b"`}
+var structTags = []string{``, `json:"c_d"`, `json:"x"`, `json:"x,omitempty"`, `json:",string"`, `json:"-"`, `json:"-,"`, `json:",omitempty"`, `json:"b"`}
 
 // structsOver builds struct types with 1-2 tagged fields (and one with an embedded struct).
 func structsOver(ts []typeSpec, max int) []typeSpec {
@@ -451,7 +451,7 @@ func structsOver(ts []typeSpec, max int) []typeSpec {
 }
 
 var decodeTexts = []string{`null`, `true`, `1`, `-1.5`, `1e3`, `300`, `1.0`, `"s"`, `"1"`, `"aGk="`, `""`, `[]`, `[1,2,3]`, `[null]`, `["a",null]`, `{}`,
-	`{"x":1,"A":2,"a":3,"B":null}`, `{"x":"1","A":"2"}`, `{"A":{"A":"in"},"c":true}`, `{"10":1,"-2":null,"b<":2}`, `{"a":[1],"b":{"c":null}}`, `[[1],[2,3]]`, `12345678901234567890`, `{"a":1,"b":2,"c":"y","z":true,"A2":"t"}`, `{"b":"wrong type","a":5}`}
+	`{"x":1,"A":2,"a":3,"B":null}`, `{"x":"1","A":"2"}`, `{"A":{"A":"in"},"c":true}`, `{"10":1,"-2":null,"b<":2}`, `{"a":[1],"b":{"c":null}}`, `[[1],[2,3]]`, `12345678901234567890`, `{"a":1,"b":2,"c":"y","z":true,"A2":"t"}`, `{"b":"wrong type","a":5}`, "{\"c\u007fd\":5,\"C_D\":6}", `{"c\u007fd":7}`, `{"x":7,"y":null,"z":8,"A":null}`}
 
 // norm turns a decoded Go value into a comparable text, unifying the two Number types.
 func norm(v reflect.Value, sb *strings.Builder, depth int) {
